@@ -35,7 +35,8 @@ func init() {
 	add("c19-endpoint-port-le", "C19.endpoint", fd, "serverPort = int(binary.BigEndian.Uint16(transport.Dst().Raw()))", "serverPort = int(binary.LittleEndian.Uint16(transport.Dst().Raw()))", "Server.Port")
 	add("c19-endpoint-unregistered", "C19.endpoint", fd, "\tfd.TCPConnections = append(fd.TCPConnections, stream)\n", "", "registered")
 	// C19.defrag
-	add("c19-defrag-by-flags", "C19.defrag", fd, "if newIPv4.Length != l {", "if ip4.Flags&layers.IPv4MoreFragments == 0 && ip4.FragOffset != 0 && l > 0 {", "complete-by-length")
+	add("c19-defrag-by-flags", "C19.defrag", fd, "if newIPv4 != ip4 {", "if ip4.Flags&layers.IPv4MoreFragments == 0 && ip4.FragOffset != 0 {", "complete-by-result")
+	add("c19-defrag-by-length", "C19.defrag", fd, "if newIPv4 != ip4 {", "if newIPv4.Length != ip4.Length {", "complete-by-result")
 	add("c19-defrag-src-dst", "C19.defrag", fd, "SourceIP:      ip4.SrcIP,", "SourceIP:      ip4.DstIP,", "record-src")
 	add("c19-defrag-redecode-fragment", "C19.defrag", fd, "nextDecoder.Decode(newIPv4.Payload, pb)", "nextDecoder.Decode(ip4.Payload, pb)", "redecode-call")
 	// C19.link
